@@ -250,6 +250,7 @@ impl Prop for C01 {
             ("derives", Cfg { type_annotations: Some(vec!["#[derive(Eq, Hash, PartialOrd)]".into()]), ..d.clone() }),
             ("attrs", Cfg { type_annotations: Some(vec!["#[allow(dead_code)]".into(), "#[derive(Eq, Hash)]".into()]), ..d.clone() }),
             ("derives-twice", Cfg { type_annotations: Some(vec!["#[derive(AsnType, Debug, Eq)]".into(), "#[derive(Debug, Hash, Clone)]".into()]), ..d.clone() }),
+            ("open-types", Cfg { non_opaque_open_types: true, ..d.clone() }),
             ("no-std+from-impls", Cfg { no_std: true, from_impls: true, ..d.clone() }),
             ("no-std+wildcard+imports", Cfg { no_std: true, wildcard: true, custom_imports: vec!["core::fmt::Display".into()], ..d.clone() }),
         ];
